@@ -22,6 +22,41 @@ CLAIMED = {
         note=NOTE_COMMON + " A cycle at the time of a request that was later cancelled is tolerated."),
 }
 
+CLAIMED.update({
+    "C01": dict(
+        text=("Generated-program exploration of the rank pass and the per-cycle scan: random DAGs (fan-in/out, diamonds, structural "
+              "TSL/TSB sources, inlined and nested sub-programs to depth 3, delayed bindings, random admissible statement order) are "
+              "compiled and run by the real engine; the oracle checks, from the IR's own who-reads-whom relation, that every producer is "
+              "ranked before its consumer, every compiled edge goes forward, push sources form the prefix, each graph bracket visits "
+              "strictly increasing node indices, child brackets lie inside their parent node's visit, and that a consumer which ran in a "
+              "cycle read exactly what its producers wrote in that cycle. A second generator wires dependency cycles of length 1-5 "
+              "(through structural sources and a nested hop): finish() must reject them, and the same loop cut by feedback must build."),
+        technique="property-based testing: Hypothesis DAG/cycle generators + invariants over compiled graph and observed trace",
+        ref="DESIGN.md §5 C01", note=NOTE_COMMON),
+    "C03": dict(
+        text=("Model-based exploration: programs over scripted sources and logging nodes with random active/valid/all_valid selectors, "
+              "passive tags and scheduler scripts are run by the engine and by a ~250-line reference interpreter transcribing the "
+              "statement; the node's own invocation log (times, per-input valid/modified/value, output) must equal the model's in both "
+              "directions. One genuine deviation (F1, see known_findings.json) is excluded by construction: a second model run that adds "
+              "exactly that rule must then match completely, otherwise the difference is reported."),
+        technique="property-based testing: Hypothesis program generator + executable reference model (differential against the engine)",
+        ref="DESIGN.md §5 C03, §5a F1", note=NOTE_COMMON + " The reference model (hgv/model.py) is trusted for the clauses it decides; explicit invalidation and REF inputs are out of scope here."),
+    "C06": dict(
+        text=("Metamorphic exploration: each generated dataflow program is wired in 2-3 random admissible statement orders and must give "
+              "identical per-node evaluation streams, cycle times and node counts; a duplicated statement (intern-eligible vs forced unique) "
+              "must not change any recorder stream, near-duplicates (one scalar / one input / function changed) and identical sinks must "
+              "remain distinct nodes."),
+        technique="property-based testing: metamorphic relation (permutation / duplication) between runs of the real engine",
+        ref="DESIGN.md §5 C06", note=NOTE_COMMON + " Scalar-type collisions (1 vs true) are not exercised because harness nodes carry one string scalar."),
+    "C18": dict(
+        text=("Model-based exploration at two levels: (unit) generated and state-machine-built operation histories against a bare "
+              "NodeScheduler compiled from the tree, compared with a multiset model after every operation (all queries and the event "
+              "set); (graph) the same operations issued by nodes of a running graph, interleaved with input-driven evaluations: every "
+              "pending time must be honoured by a visit at exactly that time, and the answers logged inside evaluations must equal the model's."),
+        technique="property-based testing: Hypothesis composite + RuleBasedStateMachine histories against a multiset reference model",
+        ref="DESIGN.md §5 C18", note=NOTE_COMMON + " A cycle at the time of a cancelled request is tolerated here (F1 is owned by C03)."),
+})
+
 NOT_YET = {}
 
 
